@@ -37,7 +37,7 @@ NoOuts == [dcount |-> 0, dlast |-> 0, dprev |-> 0, ycount |-> 0, ylast |-> 0, cc
 NoIx == [gen |-> 0, cfg |-> 0, top |-> 0, wea |-> 0, gw |-> 0, inp |-> 0, eva |-> 0, stp |-> 0,
          pre |-> 0, wat |-> 0, crop |-> 0, min |-> 0, mov |-> 0, nit |-> 0, den |-> 0, dend |-> 0, cropPrev |-> 0, stpPrev |-> 0]
 NoAcc == [wdt |-> LZero, tp |-> LZero, q1n |-> LZero, qdr |-> LZero, fin |-> LZero, clamp |-> LZero]
-NoPrev == [has |-> FALSE, sEnd |-> LZero, zeit |-> 0, growing |-> FALSE, intw |-> 0, akf |-> 0]
+NoPrev == [has |-> FALSE, sEnd |-> LZero, zeit |-> 0, growing |-> FALSE, intw |-> 0, akf |-> 0, crop |-> 0]
 NoEnv == [init |-> FALSE, lo |-> 0, hi |-> 0]
 NoHist == [fert |-> <<>>, irr |-> <<>>, till |-> <<>>, sow |-> <<>>, harv |-> <<>>, crops |-> <<>>, stageDays |-> <<>>]
 
@@ -156,7 +156,8 @@ TDayDenit == /\ IsEvent("day.denit") /\ pc = "denit"
 TDayEnd == /\ IsEvent("day.end") /\ pc = "dayEnd"
            /\ pc' = "dayTop" /\ ix' = [ix EXCEPT !.dend = l]
            /\ prev' = [has |-> TRUE, sEnd |-> Trace[ix.den].S, zeit |-> E.zeit,
-                       growing |-> Trace[ix.crop].growing, intw |-> Trace[ix.crop].intwick, akf |-> Trace[ix.crop].akf]
+                       growing |-> Trace[ix.crop].growing, intw |-> Trace[ix.crop].intwick, akf |-> Trace[ix.crop].akf,
+                       crop |-> ix.crop]   \* line of yesterday's crop snapshot
            /\ Keep(<<nsub, acc, tenv, hist, gwseen>>)
 
 TRunEnd == /\ (IsEvent("run.end") \/ IsEvent("run.panic") \/ IsEvent("run.overflow")) /\ ~Restartable
@@ -631,6 +632,10 @@ RootLimit == Max(1, (2 * Ev.wurzmax * Ev.wumaxpf + 11000) \div 22000)
 C09_RootDepth == Growing => Ev.wurz >= 0 /\ Ev.wurz <= Min(Ev.N, RootLimit)
 \* the stage index of an annual crop never decreases between sowing and harvest
 C09_StageMonotone == (Growing /\ prev.growing /\ prev.akf = Ev.akf /\ ~Ev.dauerkult) => Ev.intwick >= prev.intw
+\* ... and neither does the development itself: the cumulative development temperature sum of an annual crop never
+\* shrinks from one day to the next between sowing and harvest (1e-3 degree days)
+C09_DevMonotone == (Growing /\ prev.growing /\ prev.akf = Ev.akf /\ ~Ev.dauerkult /\ prev.crop > 0 /\ Has(Ev, "phyllo")) =>
+   Ev.phyllo >= Trace[prev.crop].phyllo /\ Ev.phyllo >= 0
 \* the reported day of year of a stage is the day the stage was entered
 C09_StageDay == (Growing /\ prev.growing /\ prev.akf = Ev.akf /\ Ev.intwick > prev.intw) => Ev.DEV[Ev.intwick] = Ev.doy
 \* crop record: emergence / anthesis / maturity are the days stage 2 / 5 / 6 were entered by THIS crop (a stage that
@@ -658,7 +663,7 @@ C09_PhenologyOrder == (IsOut("out.crop") /\ Has(Ev, "emerg") /\ outs.ccount <= L
       /\ Chain(sz, <<Ev.emerg, Ev.anth, Ev.mat>>) <= hz
 \* the crop state is finite while a crop is growing
 C09_Finite == (Growing /\ Has(Ev, "finite")) => Ev.finite
-C09_All == C09_Finite /\ C09_PhenologyOrder /\ C09_NonNeg /\ C09_Stress /\ C09_RootDepth /\ C09_StageMonotone /\ C09_StageDay /\ C09_ReportedPhenology
+C09_All == C09_DevMonotone /\ C09_Finite /\ C09_PhenologyOrder /\ C09_NonNeg /\ C09_Stress /\ C09_RootDepth /\ C09_StageMonotone /\ C09_StageDay /\ C09_ReportedPhenology
 
 \* =============================================================================================
 \* C16  rotation followed; automatic management inside its windows
